@@ -40,6 +40,9 @@ impl<'a> St<'a> {
     /// Runs one decoder call; the closure returns `true` for a value / `false` for an error.
     fn call(&mut self, label: &str, f: impl FnOnce() -> bool) -> bool {
         self.r.calls += 1;
+        crate::trap::set_where(label);
+        // every decoder call gets its own CPU budget
+        crate::trap::enter_step(crate::engine::step_timeout_s());
         match guarded(f) {
             Ok(true) => {
                 self.r.ok += 1;
@@ -428,26 +431,56 @@ fn run_decoder(name: &str, data: &[u8], ctx: &Value, scratch: &Path, st: &mut St
             let p = write_scratch(scratch, "dec/x.hnsw", data);
             let dim = ctx["dim"].as_u64().unwrap_or(4) as usize;
             st.call("PersistentHnswIndex::open", || {
-                let mut ix = match PersistentHnswIndex::open(&p) {
+                let ix = match PersistentHnswIndex::open(&p) {
                     Ok(i) => i,
                     Err(_) => return false,
                 };
                 let _ = (ix.index().dimensions(), ix.index().node_count(), ix.index().entry_point(), ix.index().max_level());
+                true
+            });
+            st.call("PersistentHnswIndex::read_node", || {
+                let ix = match PersistentHnswIndex::open(&p) {
+                    Ok(i) => i,
+                    Err(_) => return false,
+                };
+                let mut ok = true;
                 for r in 0..6u64 {
                     if let Some(id) = ix.find_node_by_row_id(r) {
-                        let _ = ix.read_node(id);
+                        ok &= ix.read_node(id).is_ok();
                     }
                 }
                 for s in 0..4u16 {
-                    let _ = ix.read_node(NodeId::new(1, s));
+                    ok &= ix.read_node(NodeId::new(1, s)).is_ok();
                 }
-                let q: Vec<f32> = (0..dim).map(|i| i as f32 * 0.5).collect();
+                ok
+            });
+            let q: Vec<f32> = (0..dim).map(|i| i as f32 * 0.5).collect();
+            st.call("PersistentHnswIndex::search", || {
+                let ix = match PersistentHnswIndex::open(&p) {
+                    Ok(i) => i,
+                    Err(_) => return false,
+                };
                 let mut sc = HnswSearchContext::new(16, 4096);
-                let a = ix.search(&q, 3, &mut sc, |r| Some((0..dim).map(|i| (r as f32) + i as f32).collect())).is_ok();
-                let b = ix.insert(9999, &q, 0.3).is_ok();
-                let _ = ix.delete_by_row_id(1);
-                let _ = ix.sync();
+                ix.search(&q, 3, &mut sc, |r| Some((0..dim).map(|i| (r as f32) + i as f32).collect())).is_ok()
+            });
+            st.call("PersistentHnswIndex::delete_by_row_id", || {
+                let mut ix = match PersistentHnswIndex::open(&p) {
+                    Ok(i) => i,
+                    Err(_) => return false,
+                };
+                let a = ix.delete_by_row_id(1).is_ok();
+                let b = ix.sync().is_ok();
                 a && b
+            });
+            let _ = std::fs::write(&p, data);
+            st.call("PersistentHnswIndex::insert", || {
+                let mut ix = match PersistentHnswIndex::open(&p) {
+                    Ok(i) => i,
+                    Err(_) => return false,
+                };
+                let b = ix.insert(9999, &q, 0.3).is_ok();
+                let _ = ix.sync();
+                b
             });
             let _ = std::fs::remove_file(&p);
         }
@@ -967,77 +1000,81 @@ fn dec_btree_file(data: &[u8], ctx: &Value, scratch: &Path, st: &mut St) {
     } else {
         1
     };
-    const CAP: usize = 6000;
-    st.call("BTreeReader::cursor_first+advance", || {
-        let stg = match MmapStorage::open(&p) {
-            Ok(s) => s,
-            Err(_) => return false,
-        };
-        let rd = match BTreeReader::new(&stg, root) {
-            Ok(r) => r,
-            Err(_) => return false,
-        };
-        let mut c = match rd.cursor_first() {
-            Ok(c) => c,
-            Err(_) => return false,
-        };
-        let mut n = 0;
-        while c.valid() && n < CAP {
-            if c.key().is_err() || c.value().is_err() {
-                return false;
-            }
-            match c.advance() {
-                Ok(true) => {}
-                Ok(false) => break,
-                Err(_) => return false,
-            }
-            n += 1;
+    const CAP: usize = 4000;
+    // readers share one mapping
+    let stg = match guarded(|| MmapStorage::open(&p)) {
+        Ok(Ok(s)) => Some(s),
+        Ok(Err(_)) => {
+            st.r.calls += 1;
+            st.r.err += 1;
+            None
         }
-        true
-    });
-    st.call("BTreeReader::cursor_last+prev", || {
-        let stg = match MmapStorage::open(&p) {
-            Ok(s) => s,
-            Err(_) => return false,
-        };
-        let rd = match BTreeReader::new(&stg, root) {
-            Ok(r) => r,
-            Err(_) => return false,
-        };
-        let mut c = match rd.cursor_last() {
-            Ok(c) => c,
-            Err(_) => return false,
-        };
-        let mut n = 0;
-        while c.valid() && n < CAP {
-            if c.key().is_err() || c.value().is_err() {
-                return false;
-            }
-            match c.prev() {
-                Ok(true) => {}
-                Ok(false) => break,
-                Err(_) => return false,
-            }
-            n += 1;
+        Err(pi) => {
+            st.r.calls += 1;
+            st.r.panics.push(("MmapStorage::open".into(), pi));
+            None
         }
-        true
-    });
-    for k in keys.iter().take(5) {
-        st.call("BTreeReader::get", || {
-            let stg = match MmapStorage::open(&p) {
-                Ok(s) => s,
+    };
+    if let Some(stg) = &stg {
+        st.call("BTreeReader::cursor_first+advance", || {
+            let rd = match BTreeReader::new(stg, root) {
+                Ok(r) => r,
                 Err(_) => return false,
             };
-            match BTreeReader::new(&stg, root) {
-                Ok(rd) => {
-                    let a = rd.get(k).is_ok();
-                    let b = rd.cursor_seek(k).map(|c| c.valid()).is_ok();
-                    a && b
+            let mut c = match rd.cursor_first() {
+                Ok(c) => c,
+                Err(_) => return false,
+            };
+            let mut n = 0;
+            while c.valid() && n < CAP {
+                if c.key().is_err() || c.value().is_err() {
+                    return false;
                 }
-                Err(_) => false,
+                match c.advance() {
+                    Ok(true) => {}
+                    Ok(false) => break,
+                    Err(_) => return false,
+                }
+                n += 1;
             }
+            true
         });
+        st.call("BTreeReader::cursor_last+prev", || {
+            let rd = match BTreeReader::new(stg, root) {
+                Ok(r) => r,
+                Err(_) => return false,
+            };
+            let mut c = match rd.cursor_last() {
+                Ok(c) => c,
+                Err(_) => return false,
+            };
+            let mut n = 0;
+            while c.valid() && n < CAP {
+                if c.key().is_err() || c.value().is_err() {
+                    return false;
+                }
+                match c.prev() {
+                    Ok(true) => {}
+                    Ok(false) => break,
+                    Err(_) => return false,
+                }
+                n += 1;
+            }
+            true
+        });
+        for k in keys.iter().take(5) {
+            st.call("BTreeReader::get", || match BTreeReader::new(stg, root) {
+                Ok(rd) => rd.get(k).is_ok(),
+                Err(_) => false,
+            });
+            st.call("BTreeReader::cursor_seek", || match BTreeReader::new(stg, root) {
+                Ok(rd) => rd.cursor_seek(k).map(|c| c.valid()).is_ok(),
+                Err(_) => false,
+            });
+        }
     }
+    drop(stg);
+    // writers: each on the corrupted image as stored (the file is rewritten when a writer changed it)
     for (i, k) in keys.iter().enumerate().take(3) {
         st.call("BTree::insert", || {
             let mut stg = match MmapStorage::open(&p) {
@@ -1052,20 +1089,28 @@ fn dec_btree_file(data: &[u8], ctx: &Value, scratch: &Path, st: &mut St) {
                 Err(_) => false,
             }
         });
+        let _ = std::fs::write(&p, data);
+        st.call("BTree::update", || {
+            let mut stg = match MmapStorage::open(&p) {
+                Ok(s) => s,
+                Err(_) => return false,
+            };
+            match BTree::new(&mut stg, root) {
+                Ok(mut t) => t.update(k, &[1, 2, 3]).is_ok(),
+                Err(_) => false,
+            }
+        });
         st.call("BTree::delete", || {
             let mut stg = match MmapStorage::open(&p) {
                 Ok(s) => s,
                 Err(_) => return false,
             };
             match BTree::new(&mut stg, root) {
-                Ok(mut t) => {
-                    let a = t.update(k, &[1, 2, 3]).is_ok();
-                    let b = t.delete(k).is_ok();
-                    a && b
-                }
+                Ok(mut t) => t.delete(k).is_ok(),
                 Err(_) => false,
             }
         });
+        let _ = std::fs::write(&p, data);
     }
     let _ = std::fs::remove_file(&p);
 }
